@@ -29,10 +29,45 @@ def main(argv=None):
   if not a.prop: ap.error('property id required')
   return check_property(a.prop,a.tier,repo,seed,a.only,a.v)
 
-def run_pool(repo,keys,timeout_ms,seed,nsample,known,procs=16):
-  jobs=[(repo,k,timeout_ms,seed,nsample,known) for k in keys]
+def run_pool(repo,keys,timeout_ms,seed,nsample,known,procs=16,reg=None):
+  """one job per (contract, view variant); the first job of a contract also runs the native sampling. Results are merged per contract."""
+  from .verify import variant_label
+  jobs=[]
+  for k in keys:
+    vls=[]
+    if reg is not None:
+      for v in reg.contracts[k].variants():
+        vl=variant_label(v)
+        if vl not in vls: vls.append(vl)
+    if len(vls)<=1: jobs.append((repo,k,timeout_ms,seed,nsample,known))
+    else:
+      jobs.append((repo,k,timeout_ms,seed,nsample,known,'<none>'))       # sampling only
+      for vl in vls: jobs.append((repo,k,timeout_ms,seed,0,known,vl))
   if not jobs: return []
-  with Pool(min(procs,len(jobs))) as p: return p.map(driver.run_contract,jobs,chunksize=1)
+  with Pool(min(procs,len(jobs))) as p: res=p.map(driver.run_contract,jobs,chunksize=1)
+  merged={}
+  for r in res:
+    m=merged.get(r['key'])
+    if m is None: merged[r['key']]=r; r['_obl']={o['name']:o for o in r['obligations']}; continue
+    m['time']=m.get('time',0)+r.get('time',0)
+    if not r['ok']:
+      m['ok']=False; m['error']=r['error']; m['trace']=r.get('trace'); m['unsupported']=m.get('unsupported') or r.get('unsupported'); continue
+    if r.get('sampling') and not m.get('sampling'): m['sampling']=r['sampling']
+    if r.get('info'):
+      mi=m.get('info') or {'paths':0,'variants':0}
+      m['info']={a:mi.get(a,0)+r['info'].get(a,0) for a in ('paths','variants')}
+    for o in r['obligations']:
+      e=m['_obl'].get(o['name'])
+      if e is None: m['_obl'][o['name']]=o; m['obligations'].append(o); continue
+      e['queries']+=o['queries']; e['time']=round(e['time']+o['time'],3)
+      rank={'proved':0,'unproved':1,'violated':2}
+      if rank.get(o['status'],1)>rank.get(e['status'],1): e['status']=o['status']; e['cex']=o['cex']; e['detail']=o['detail']
+      if o['solver']!='trivial' and o['solver'] not in (e['solver'] or ''): e['solver']=o['solver'] if e['solver']=='trivial' else e['solver']+'+'+o['solver']
+  out=[]
+  for k in keys:
+    if k in merged:
+      merged[k].pop('_obl',None); out.append(merged[k])
+  return out
 
 def property_meta(prop):
   import contracts
@@ -50,7 +85,7 @@ def check_property(prop,tier,repo,seed,only=None,verbose=False):
   keys=[k for k,c in reg.contracts.items() if prop in c.property_ids and not c.trusted and (only is None or only in k)]
   timeout_ms=20000 if tier=='quick' else 120000
   nsample=meta.get('nsample',(120,1500))[0 if tier=='quick' else 1]
-  results=run_pool(repo,keys,timeout_ms,seed,nsample,known)
+  results=run_pool(repo,keys,timeout_ms,seed,nsample,known,reg=reg)
   # property-specific extra obligations / bounded stand-ins (tables, rtlvc instances, ...)
   extras=[]
   for hook in meta.get('extra',[]):
@@ -74,15 +109,36 @@ def report(prop,tier,seed,repo,meta,results,extras,known,lock,t0,verbose):
       evals+=samp['evaluations']
       if r.get('bounded'): bounded.append(dict(function=r['key'],bound=r['bounded'],evaluations=samp['evaluations']))
     if not r['ok']:
-      # out of reach / extraction failure: the executable contract is the bounded stand-in
-      fails=(samp or {}).get('failures',[])
-      real=[f for f in fails if 'failed' in f]
-      if real:
-        f=real[0]; path=os.path.join(outdir,f"{prop}-standin-{safe(r['key'])}.py")
-        replay_mod.write_replay(path,dict(kind='no-failing-input-found',property=prop,obligation=f"standin::{r['key']}",contract=r['key'],
-                                detail=json.dumps(f,indent=1)),VERIF)
-        violations.append((f"standin::{r['key']}",path,True,f)); continue
-      errors.append(f"{r['key']}: {r['error']}")
+      # out of reach / extraction failure: the executable contract over its stated finite domain is the bounded stand-in
+      sd=r.get('standin') or samp or {}
+      real=[f for f in sd.get('failures',[]) if 'failed' in f]
+      if r.get('standin'):
+        bounded.append(dict(function=r['key'],bound=sd.get('bound'),evaluations=sd.get('evaluations'),failures=len(real),reason=r['error']))
+        evals+=sd.get('evaluations',0)
+      newv=False
+      for f in real:
+        kf=None
+        for k in known:
+          if k.get('status')=='open' and k.get('contract')==r['key'] and f.get('args_json') is not None:
+            try:
+              if eval(k['input_class'],dict(f['args_json'])): kf=k; break
+            except Exception: pass
+        if kf: known_hits.setdefault(kf['id'],kf); continue
+        if newv: continue
+        newv=True
+        path=os.path.join(outdir,f"{prop}-standin-{safe(r['key'])}.py")
+        if f.get('args_json') is not None:
+          replay_mod.write_replay(path,dict(kind='native-args',property=prop,obligation=f"standin::{r['key']}",contract=r['key'],lines=r.get('lines'),
+                                  args=f['args_json'],expected_failure=f['failed'],repo=repo),VERIF)
+          violations.append((f"standin::{r['key']}",path,False,dict(args=f['args'],native=dict(failed=f['failed']))))
+        else:
+          replay_mod.write_replay(path,dict(kind='no-failing-input-found',property=prop,obligation=f"standin::{r['key']}",contract=r['key'],
+                                  detail=json.dumps(f,indent=1)),VERIF)
+          violations.append((f"standin::{r['key']}",path,True,f))
+      if real: continue
+      if r.get('standin') and r.get('unsupported') and r.get('expected_out_of_reach'):
+        continue       # declared bounded: stand-in passed, reported under coverage.bounded (never counted as proved)
+      errors.append(f"{r['key']}: {r['error']}"+(f" (bounded stand-in passed {sd.get('evaluations')} inputs; a function that is out of reach cannot be reported as held)" if r.get('standin') else ''))
       if verbose: print(r.get('trace',''))
       continue
     lk=[k for k in lock if k.split('::',1)[1].startswith(r['key']+'::')] if lock else []
@@ -174,7 +230,7 @@ def relock(repo,seed):
   import contracts
   reg=driver.load_registry(repo)
   keys=[k for k,c in reg.contracts.items() if not c.trusted]
-  results=run_pool(repo,keys,20000,seed,0,[])
+  results=run_pool(repo,keys,20000,seed,0,[],reg=reg)
   lock={}
   for prop,meta in contracts.PROPERTIES.items():
     for hook in meta.get('extra',[]):
